@@ -125,13 +125,16 @@ fn blind_and_check(t: &mut Tape, ctx: &mut Ctx) -> R {
     if case.has_conf_input {
         ctx.class("with-confidential-input");
     }
+    if case.has_partial_input {
+        ctx.class("with-partially-blinded-input");
+    }
     if last_marked_not_last {
         ctx.class("last-marked-is-not-last-output");
     }
     if marked.len() >= 2 || case.n_assets >= 2 || case.has_issuance || case.has_conf_input || last_marked_not_last {
         ctx.nontrivial(&enc::tx_full(&case.tx));
     }
-    let cls = format!("case:marked{}{}{}", marked.len().min(3), if case.has_issuance { "+issuance" } else { "" }, if case.has_conf_input { "+conf-in" } else { "" });
+    let cls = format!("case:marked{}{}{}", marked.len().min(3), if case.has_issuance { "+issuance" } else { "" }, if case.has_partial_input { "+partial-in" } else if case.has_conf_input { "+conf-in" } else { "" });
     if ctx.wants_sample(&cls) {
         ctx.sample(&cls, || describe(&case));
     }
